@@ -369,6 +369,80 @@ func c14(c *core.Ctx) {
 	c.Family("aka-overwrite", c.N(6000, 600000), func(k *core.Case) { c14History(k, false) })
 	c.Family("aka-amend-decoded", c.N(6000, 600000), func(k *core.Case) { c14History(k, true) })
 	c.Require("aka_histories_fresh", "aka_histories_decoded", "refused_setter_calls_in_histories", "values_differing_only_by_trailing_zero_octets_set")
+	// TWO packets alive in one session, both taken through the MAC calculation (AT_MAC is a zero placeholder then); the
+	// caller completes / scrubs ONE of them through the value slices GetAttr hands out for it (inside their lengths):
+	// the OTHER packet still reads back and encodes as before
+	c.Family("two-packets-around-mac-calculation", c.N(1500, 200000), func(k *core.Case) {
+		mk := func() (*abs.EAP, *eap.EAP) {
+			e := &abs.EAP{Code: uint8(k.R.Pick(1, 2)), ID: k.R.Byte(), Method: &abs.Method{Type: abs.MAkaPrime, AKA: akaWithMac(k.R, k.R.Intn(128))}}
+			le, err := bridge.BuildEAP(e)
+			if err != nil {
+				return e, nil
+			}
+			return e, le
+		}
+		ex, x := mk()
+		ey, y := mk()
+		if x == nil || y == nil {
+			return
+		}
+		w := M{"x": ex.Canon(), "y": ey.Canon()}
+		key := k.R.Bytes(32)
+		k.Eval(1)
+		var macX []byte
+		var before, after *abs.EAP
+		var wireBefore, wireAfter []byte
+		var err error
+		pn := core.Try(func() {
+			order := k.Index % 3
+			if order == 0 {
+				if _, err = y.CalcEapAkaPrimeAtMAC(key); err != nil {
+					return
+				}
+			}
+			if macX, err = x.CalcEapAkaPrimeAtMAC(key); err != nil {
+				return
+			}
+			if order == 1 {
+				if _, err = y.CalcEapAkaPrimeAtMAC(key); err != nil {
+					return
+				}
+			}
+			before = bridge.ObserveEAP(y)
+			if wireBefore, err = y.Marshal(); err != nil {
+				return
+			}
+			ax := x.EapTypeData.(*eap.EapAkaPrime)
+			for _, t := range []eap.EapAkaPrimeAttrType{eap.AT_MAC, eap.AT_RAND, eap.AT_AUTN, eap.AT_RES, eap.AT_KDF_INPUT, eap.AT_CHECKCODE} {
+				at, gerr := ax.GetAttr(t)
+				if gerr != nil {
+					continue
+				}
+				v := at.GetValue()
+				if t == eap.AT_MAC && len(v) == 16 && k.Index%2 == 0 {
+					copy(v, macX)
+				} else {
+					for i := range v {
+						v[i] ^= 0xA5
+					}
+				}
+			}
+			after = bridge.ObserveEAP(y)
+			wireAfter, err = y.Marshal()
+		})
+		if pn != nil || err != nil {
+			k.Violate("error", "two-packets: "+fmt.Sprint(pn, err), "error / panic", w)
+			return
+		}
+		if !abs.EqualEAP(before, after) || !bytes.Equal(wireBefore, wireAfter) {
+			w["y_before"], w["y_after"] = core.Hex(wireBefore), core.Hex(wireAfter)
+			k.Violate("aliasing", "packet-changed-when-another-packets-values-were-written", "after the caller wrote through the value slices of packet X, packet Y reads back / encodes differently", w)
+			return
+		}
+		k.Count("second_packet_unchanged_by_writes_to_the_first", 1)
+		k.Distinct("twopk|" + ey.Shape())
+	})
+	c.Require("second_packet_unchanged_by_writes_to_the_first")
 	c.Family("methods", c.N(20000, 3000000), func(k *core.Case) {
 		e := gen.EAP(k.R)
 		c14One(k, e, "methods")
@@ -511,7 +585,13 @@ func c15Sender(k *core.Case) {
 			return
 		}
 		ap := le.EapTypeData.(*eap.EapAkaPrime)
-		if err = ap.SetAttr(eap.AT_MAC, mac); err != nil {
+		if at, gerr := ap.GetAttr(eap.AT_MAC); k.Index%5 == 2 && gerr == nil && len(at.GetValue()) == 16 {
+			// the sender completes the packet IN PLACE: it writes the code into the 16 octets GetAttr hands out for
+			// this packet's AT_MAC (inside their length) instead of a second SetAttr. Every later case of this process
+			// runs after such a sender.
+			copy(at.GetValue(), mac)
+			k.Count("sender_filled_AT_MAC_in_place_through_GetAttr", 1)
+		} else if err = ap.SetAttr(eap.AT_MAC, mac); err != nil {
 			return
 		}
 		if k.Index%2 == 1 {
